@@ -16,6 +16,7 @@ use crate::solve::{observed_solve, step_budget, SolveCfg, SolveOut};
 use cfr_verif_seam::{Cores, KIND_CHANCE, KIND_PLAYER};
 use rand::RngCore;
 use serde_json::{json, Value};
+use std::collections::BTreeMap;
 use std::sync::Arc;
 
 pub struct Sampling;
@@ -140,6 +141,64 @@ impl Sampling {
                     viol("categorical-sampler-wrong-interval", "", format!("probs {probs:?} (cumulative {cum:?}) u={u:e}: sampler returned index {got}, the inverse CDF gives {want}")),
                     vec![],
                 );
+            }
+        }
+        finish(m, h, Verdict::Pass, vec![])
+    }
+
+    /// The one component every other run replaces: the library's own source of random numbers.
+    /// Here the seam hands out no generator (the code draws from whatever it draws from in
+    /// production) and only listens. Two chance infosets on one path, each a uniform choice
+    /// among the same number of outcomes, are drawn once per pass; the solve is made twice on
+    /// one simulated thread. What the draws ARE is not repeatable and is kept out of the event
+    /// log; the verdict is: the two infosets' streams are not one and the same stream, and the
+    /// second call does not replay the first (each would happen by chance with probability
+    /// below 2^-250).
+    fn run_entropy(&self, case: &LibCase, mut m: Metrics, mut h: Fnv) -> RunOut {
+        let n = case.extra["outcomes"].as_u64().unwrap_or(2) as usize;
+        let inner = |k: usize| MNode::C { info: Some("D1".into()), outs: (0..n).map(|i| (format!("o{i}"), 1.0, MNode::T((k * n + i) as f64))).collect() };
+        let game = MNode::C { info: None, outs: (0..n).map(|k| (format!("o{k}"), 1.0, inner(k))).collect() };
+        let mut cfg = SolveCfg::new(case.method, ParamSpec::Preset("vanilla"), case.t, 0.0, 1, 0);
+        cfg.sampling_seed = None;
+        cfg.record_draws = true;
+        let model = Arc::new(game);
+        let c1 = cfg.clone();
+        let sim = simulate(&case.sched, move || -> Result<(SolveOut, SolveOut), String> {
+            let game = model.build().map_err(|e| format!("{e:?}"))?;
+            Ok((observed_solve(&game, &c1), observed_solve(&game, &c1)))
+        });
+        m.add("executions", 1);
+        h.u64(n as u64);
+        h.u64(case.method as u64);
+        m.nontrivial_key = Some(crate::rng::mix(0xE27, (n as u64) << 8 | case.method as u64));
+        let (a, b) = match sim.value {
+            Err(f) => return finish(m, h, viol(f.class(), "", f.message().lines().next().unwrap_or("").to_string()), vec![]),
+            Ok(Err(e)) => return finish(m, h, Verdict::Harness(format!("entropy game rejected: {e}")), vec![]),
+            Ok(Ok(o)) => o,
+        };
+        let streams = |o: &SolveOut| -> BTreeMap<usize, BTreeMap<u64, usize>> {
+            let mut s: BTreeMap<usize, BTreeMap<u64, usize>> = BTreeMap::new();
+            for d in o.seam.draws.iter().filter(|d| d.kind == KIND_CHANCE) {
+                s.entry(d.vid).or_default().insert(d.pass, d.result);
+            }
+            s
+        };
+        let (sa, sb) = (streams(&a), streams(&b));
+        m.add("own_entropy_draws_listened_to", (a.seam.draws.len() + b.seam.draws.len()) as u64);
+        if sa.len() != 2 || sa.values().any(|s| s.len() < 250) {
+            return finish(m, h, viol("wrong-number-of-draws", "own-entropy", format!("expected two chance infosets drawn in at least 250 passes each, saw {:?}", sa.iter().map(|(v, s)| (*v, s.len())).collect::<Vec<_>>())), vec![]);
+        }
+        let vids: Vec<usize> = sa.keys().cloned().collect();
+        let common: Vec<u64> = sa[&vids[0]].keys().filter(|p| sa[&vids[1]].contains_key(*p)).cloned().collect();
+        if common.len() >= 250 && common.iter().all(|p| sa[&vids[0]][p] == sa[&vids[1]][p]) {
+            return finish(m, h, viol("chance-infosets-share-one-stream", "own-entropy", format!("{:?}: two different chance infosets drew the same outcome index in each of {} passes", case.method, common.len())), vec![]);
+        }
+        for v in &vids {
+            if let Some(s2) = sb.get(v) {
+                let both: Vec<u64> = sa[v].keys().filter(|p| s2.contains_key(*p)).cloned().collect();
+                if both.len() >= 250 && both.iter().all(|p| sa[v][p] == s2[p]) {
+                    return finish(m, h, viol("second-call-replays-the-draws", "own-entropy", format!("{:?}: a second call on the same thread drew exactly the first call's {} outcomes at a chance infoset", case.method, both.len())), vec![]);
+                }
             }
         }
         finish(m, h, Verdict::Pass, vec![])
@@ -352,7 +411,14 @@ impl Prop for Sampling {
             Tier::Quick => 200,
             Tier::Thorough => 500,
         };
-        if idx % freq_every == 7 {
+        if idx % 1000 == 11 {
+            // the library's own entropy source, unreplaced: see run_entropy
+            let n = r.usize_in(2, 3);
+            case.method = *r.pick(&[Method::Sampled, Method::External]);
+            case.t = 300;
+            case.sched = SchedSpec::nopreempt();
+            case.extra = json!({"kind": "entropy", "outcomes": n});
+        } else if idx % freq_every == 7 {
             let site = *r.pick(&["chance-sampled", "chance-external", "player-external"]);
             case.t = 100_000;
             case.sched = SchedSpec::nopreempt();
@@ -387,6 +453,10 @@ impl Prop for Sampling {
                 m.add("runs_frequency", 1);
                 self.run_frequency(case, m, h)
             }
+            "entropy" => {
+                m.add("runs_own_entropy_source", 1);
+                self.run_entropy(case, m, h)
+            }
             _ => {
                 m.add("runs_observer", 1);
                 self.run_observer(case, m, h)
@@ -416,7 +486,7 @@ impl Prop for Sampling {
     }
 
     fn rule(&self) -> String {
-        "three kinds of run. observer (most): generated game x method x parameter set x T <= 30 x K in {1,2,3} x sampling seed x schedule, solved in one simulated execution with every sampling site observed: Full makes no draws, Sampled no player draws, one draw per (site, pass), chance weights presented = declared weights normalised, every player draw = inverse CDF of the weights presented at the keyed variate, and the whole draw log equals the documented algorithm's (reference model). scripted (1 in 10): a weight vector of length 1..8 (zeros, 1e-9, dominant entries) x ~100 uniform variates incl. every cumulative boundary +-2 ulp fed to the private categorical sampler (hook H7) through a scripted RngCore. frequency (1 in 200): 1e5 keyed draws through the real chance / opponent sampling code on a one-node game, Hoeffding band with total failure probability 1e-12. Non-trivial: >= 1 draw observed / every scripted or frequency run; distinct = distinct (configuration, schedule) or weight-vector hashes".into()
+        "four kinds of run. own-entropy (1 in 1000): the seam hands out no generator and only listens to the library's own source: two uniform chance infosets on one path x 300 iterations x two calls on one thread; their streams must not coincide and the second call must not replay the first (values kept out of the event log). observer (most): generated game x method x parameter set x T <= 30 x K in {1,2,3} x sampling seed x schedule, solved in one simulated execution with every sampling site observed: Full makes no draws, Sampled no player draws, one draw per (site, pass), chance weights presented = declared weights normalised, every player draw = inverse CDF of the weights presented at the keyed variate, and the whole draw log equals the documented algorithm's (reference model). scripted (1 in 10): a weight vector of length 1..8 (zeros, 1e-9, dominant entries) x ~100 uniform variates incl. every cumulative boundary +-2 ulp fed to the private categorical sampler (hook H7) through a scripted RngCore. frequency (1 in 200): 1e5 keyed draws through the real chance / opponent sampling code on a one-node game, Hoeffding band with total failure probability 1e-12. Non-trivial: >= 1 draw observed / every scripted or frequency run; distinct = distinct (configuration, schedule) or weight-vector hashes".into()
     }
 
     fn assumptions(&self) -> Vec<String> {
